@@ -129,12 +129,16 @@ class InducingPointKernel(Kernel):
             replace_kernel_mat = True
             kernel_mat = self._cached_kernel_mat
 
+        # Copy the likelihood as well (through memo, so that a deep-copied model and its kernel keep referring to one
+        # and the same likelihood copy); sharing it would tie the copy's added loss term to the original's noise
         cp = self.__class__(
-            base_kernel=copy.deepcopy(self.base_kernel),
-            inducing_points=copy.deepcopy(self.inducing_points),
-            likelihood=self.likelihood,
+            base_kernel=copy.deepcopy(self.base_kernel, memo),
+            inducing_points=copy.deepcopy(self.inducing_points, memo),
+            likelihood=copy.deepcopy(self.likelihood, memo),
             active_dims=self.active_dims,
         )
+        # a freshly constructed module is in training mode: keep the mode of the kernel being copied
+        cp.training = self.training
 
         if replace_inv_root:
             cp._cached_kernel_inv_root = kernel_inv_root
